@@ -12,10 +12,11 @@ log Sync/GC, the expiry check that stops drained groups and destroys a drained p
 and over both shapes `cfg` of the comparison that guards `ResetAppendIndex`.
 Theorems are stated for follower A (fields without suffix); the model is symmetric under `St.swap`
 and the invariant is proved for both followers (`no_holes_b`, `agreement_b`, ... are the B instances).
-Helper lemmas: `LinVerif/Lemmas/C08Log.lean`, `C08Inv.lean`, `C08Step.lean`, `C08Run.lean`, `C08Live.lean`.
+Helper lemmas: `LinVerif/Lemmas/C08Log.lean`, `C08Inv.lean`, `C08Step.lean`, `C08Run.lean`, `C08Live.lean`, `C08Sched.lean`.
 -/
 import LinVerif.Lemmas.C08Run
 import LinVerif.Lemmas.C08Live
+import LinVerif.Lemmas.C08Sched
 import LinVerif.Generated.C08
 
 namespace LinVerif.Props.C08
@@ -743,6 +744,96 @@ theorem conn_handshake_ok_after_any_history (ops : List Conn.Op) :
   simp only [Conn.step]
   exact conn_fresh_stub_alive _
 
+
+/-! ## 4c. schedules: the suspend / wake-up handshake and the expiry tick as atomic steps (side models `Wake`, `Tick`)
+
+`ss` ranges over ALL sequences of atomic steps of the two (three) threads — every interleaving. -/
+
+/-- the shape of the wake-up the tree has, from the regenerated facts -/
+def wakeShape : Wake.Shape :=
+  if LinVerif.Generated.C08.suspendChanBuffered then .buffered
+  else if LinVerif.Generated.C08.wakeSendBlocking then .blocking else .nonblocking
+
+/-- NO LOST WAKE-UP, the tree as it is (unbuffered channel, plain blocking send), every interleaving of
+(state events) ‖ (loop) — **partial**: under the hypothesis that no online notification is handled
+between the loop's liveness test and its `isSuspend.CompareAndSwap(false, true)` (`hit = false`).
+Then the loop is never left blocked in `<-r.suspend` with the follower live and no notification in
+progress. The full statement (without `hit = false`) is FALSE for the tree as it is:
+`Neg.wake_lost_before_mark` (known finding `online-notification-before-suspend-mark-lost`). With a
+non-blocking send it is false even under the hypothesis: `Neg.wake_lost_if_nonblocking_sched`. -/
+theorem wake_no_lost_wakeup_partial (ss : List Wake.Step) (hh : (Wake.run .blocking ss).hit = false) :
+    ¬ Wake.Stuck (Wake.run .blocking ss) := by
+  intro hs
+  have hi := Wake.invB_run ss
+  have h1 := hs.2.1
+  have h2 := hs.2.2.1
+  rcases hi.wait hh (Or.inr hs.1) with x | x | x
+  · rw [x.1] at h1; cases h1
+  · rw [x.2.1] at h2; cases h2
+  · rw [x.2.1] at h2; cases h2
+
+/-- ... and the handler's blocking send always finds its receiver: whenever the handler (which runs
+inside the state manager's event loop, holding its mutex) is at the send, the loop has marked itself and
+is at — or on its way to — the receive. Every interleaving, no hypothesis. -/
+theorem wake_handler_send_finds_receiver (ss : List Wake.Step) (h : (Wake.run .blocking ss).hpc = .send) :
+    (Wake.run .blocking ss).lpc = .marked ∨ (Wake.run .blocking ss).lpc = .recv := by
+  have hi := Wake.invB_run ss
+  cases hl : (Wake.run .blocking ss).lpc with
+  | run => exact absurd h (hi.run hl).1
+  | seen => exact absurd h (hi.seen' hl).1
+  | marked => exact Or.inl rfl
+  | recv => exact Or.inr rfl
+
+/-- the flag and the handler's position always agree with where the loop is: a waiting loop either
+still has `isSuspend = true` (the next notification will win the CAS) or the handler is already sending -/
+theorem wake_flag_or_sender (ss : List Wake.Step)
+    (h : (Wake.run .blocking ss).lpc = .marked ∨ (Wake.run .blocking ss).lpc = .recv) :
+    ((Wake.run .blocking ss).susp = true ∧ (Wake.run .blocking ss).hpc ≠ .send) ∨
+    ((Wake.run .blocking ss).susp = false ∧ (Wake.run .blocking ss).hpc = .send) :=
+  (Wake.invB_run ss).wait' h
+
+/-- NO LOST WAKE-UP at full strength for the candidate repair (`fixes/C08-suspend-token.patch`: channel
+of capacity 1, the handler leaves a token on every NodeOnline, the loop clears the flag after the
+receive): every interleaving, no hypothesis. -/
+theorem wake_buffered_never_stuck (ss : List Wake.Step) : ¬ Wake.Stuck (Wake.run .buffered ss) := by
+  intro hs
+  have := (Wake.invT_run ss).tokd hs.2.1 hs.2.2.1 (Or.inr (Or.inr hs.1))
+  rw [hs.2.2.2] at this
+  cases this
+
+example : (Wake.run .blocking [.off, .test, .mark, .block, .on, .cas, .take]).lpc = .run ∧
+    (Wake.run .blocking [.off, .test, .mark, .on, .cas, .block, .take]).lpc = .run ∧
+    (Wake.run .blocking [.off, .test, .mark, .on, .cas, .block]).hpc = .send ∧
+    (Wake.run .buffered [.off, .test, .on, .cas, .mark, .block, .take]).lpc = .run := by decide
+
+/-- A REPLICATOR WITH UN-ACKNOWLEDGED CONSUMED MESSAGES IS NEVER REMOVED: in every interleaving of
+appenders, the replica loop's sub-steps (Consume / acknowledgement / lost answer) and the expiry tick's
+sub-steps (emptiness test / stopReplicator), whenever the tick is about to stop the replicator and no
+append landed since its test, the group has nothing consumed-but-unacknowledged, nothing in flight and
+nothing pending. (With a test on `Pending()`: `Neg.tick_pending_test_removes_unacked`; with an append
+between test and stop: `Neg.tick_append_between_test_and_stop`.) -/
+theorem tick_never_removes_unacked (ss : List Tick.Step)
+    (hv : (Tick.run true ss).verdict = true) (hl : (Tick.run true ss).late = false) :
+    (Tick.run true ss).app ≤ (Tick.run true ss).gack ∧ (Tick.run true ss).cons = (Tick.run true ss).gack ∧
+    (Tick.run true ss).infl = none := by
+  have hi := Tick.inv_run ss
+  have h := hi.verdict hv hl
+  have h1 := hi.gc
+  have h2 := hi.ca
+  refine ⟨h, by omega, ?_⟩
+  cases hf : (Tick.run true ss).infl with
+  | none => rfl
+  | some i => have := hi.infl i hf; omega
+
+/-- acknowledged ≤ consumed ≤ appended in every interleaving -/
+theorem tick_order (ss : List Tick.Step) :
+    (Tick.run true ss).gack ≤ (Tick.run true ss).cons ∧ (Tick.run true ss).cons ≤ (Tick.run true ss).app :=
+  ⟨(Tick.inv_run ss).gc, (Tick.inv_run ss).ca⟩
+
+example : (Tick.run true [.append, .consume, .ack, .test]).verdict = true ∧
+    (Tick.run true [.append, .consume, .lose, .test]).verdict = false ∧
+    (Tick.run true [.append, .consume, .test, .ack]).verdict = false := by decide
+
 /-! ## 5. ties to the regenerated facts (replica/*.go, app/storage/rpc/replica.go, pkg/queue/*.go) -/
 
 namespace Tie
@@ -795,6 +886,35 @@ theorem online_handler_sends : C08.onlineHandlerSends = ["plain: r.suspend <- st
 theorem online_handler_conds : C08.onlineHandlerConds =
     ["state == models.NodeOnline", "r.isSuspend.CompareAndSwap(true, false)"] := rfl
 theorem isReady_recvs : C08.isReadyRecvs = ["<-r.suspend"] := rfl
+
+/-- the suspend / wake-up handshake: the channel is unbuffered, IsReady's offline branch is
+unlock · CAS(false,true) · state.Store · receive · recursion (the Wake model's `mark`, `block`, `take`;
+`test` is the `GetLiveNode` before the branch), so the tree has the `blocking` shape -/
+theorem suspend_chan_unbuffered : C08.suspendChanMake = "suspend: make(chan struct{})" := rfl
+theorem offline_branch_steps : C08.offlineBranchSteps =
+    ["call r.rwMutex.Unlock", "if r.isSuspend.CompareAndSwap(false, true)", "call r.state.Store", "<-r.suspend", "call r.IsReady"] := rfl
+theorem wake_shape : wakeShape = .blocking := rfl
+
+/-- the main model's two window events ARE the Wake model's schedules (same flag / liveness / parked) -/
+theorem steppre_is_wake_schedule (fixed mfail wake : Bool) :
+    let s := run { fixed := fixed, mfail := mfail, wake := wake } [.offline .a, .steppre .a .none]
+    let w := Wake.run .blocking [.off, .test, .on, .cas, .mark, .block]
+    s.live = w.live ∧ s.susp = w.susp ∧ s.parked = decide (w.lpc = .recv) ∧ w.hpc = .idle := by
+  cases fixed <;> cases mfail <;> cases wake <;> decide
+theorem steponl_is_wake_schedule (fixed mfail : Bool) :
+    let s := run { fixed := fixed, mfail := mfail, wake := true } [.offline .a, .steponl .a .none]
+    let w := Wake.run .blocking [.off, .test, .mark, .on, .cas, .block, .take]
+    s.live = w.live ∧ s.susp = w.susp ∧ s.parked = decide (w.lpc = .recv) ∧ w.hpc = .idle ∧
+    let s' := run { fixed := fixed, mfail := mfail, wake := false } [.offline .a, .steponl .a .none]
+    let w' := Wake.run .nonblocking [.off, .test, .mark, .on, .cas, .send, .block]
+    s'.live = w'.live ∧ s'.susp = w'.susp ∧ s'.parked = decide (w'.lpc = .recv) ∧ w'.hpc = .idle := by
+  cases fixed <;> cases mfail <;> decide
+
+/-- the expiry tick's emptiness test is `consumerGroup.IsEmpty` = appended ≤ ACKNOWLEDGED: the Tick model's
+`emptyByAck = true` shape -/
+theorem tick_empty_by_ack (t : Tick.T) (h1 : t.stopped = false) (h2 : t.verdict = false) :
+    (Tick.step true t .test).verdict = C08.isEmptyCond t.app t.gack := by
+  simp [Tick.step, h1, h2, C08.isEmptyCond]
 
 theorem replica_ack_arg : C08.replicaAckArg = "resp.AckIndex" := rfl
 
@@ -1232,6 +1352,52 @@ theorem wakeup_lost_if_nonblocking (fixed mfail : Bool) :
     (run { fixed := fixed, mfail := mfail, wake := false } [.offline .a, .steponl .a .none]).susp = false ∧
     (run { fixed := fixed, mfail := mfail, wake := false } [.offline .a, .steponl .a .none, .offline .a, .online .a .none]).parked = true := by
   cases fixed <;> cases mfail <;> decide
+
+/-- (6, known finding `online-notification-before-suspend-mark-lost`, the tree as it is) the follower's
+online event is handled between the loop's liveness test and its `isSuspend.CompareAndSwap(false, true)`:
+the handler's CAS(true,false) finds the flag still false and does nothing, the loop then marks itself and
+blocks — Stuck: follower live, no notification in progress, loop in `<-r.suspend`. This is the region the
+hypothesis `hit = false` of `wake_no_lost_wakeup_partial` excludes. -/
+theorem wake_lost_before_mark :
+    Wake.Stuck (Wake.run .blocking [.off, .test, .on, .cas, .mark, .block]) ∧
+    (Wake.run .blocking [.off, .test, .on, .cas, .mark, .block]).hit = true ∧
+    (Wake.run .blocking [.off, .test, .on, .cas, .mark, .block]).susp = true := by decide
+
+/-- the same in the main model (event `steppre`; witness: repl case 13): the loop is parked with the follower
+live, replica calls do nothing, appended messages stay un-replicated — until the follower bounces
+(offline, online) once more, which releases it and the backlog arrives -/
+theorem online_before_suspend_mark_parks (fixed mfail wake : Bool) :
+    let cfg : Cfg := { fixed := fixed, mfail := mfail, wake := wake }
+    let s := run cfg [.append [1], .offline .a, .steppre .a .none]
+    s.live = true ∧ s.parked = true ∧ s.susp = true ∧
+    (next cfg s (.step .a .none)).2 = .suspended ∧ (next cfg s (.step .a .none)).1.F.app = -1 ∧
+    (run cfg [.append [1], .offline .a, .steppre .a .none, .offline .a, .online .a .none]).parked = false ∧
+    (run cfg [.append [1], .offline .a, .steppre .a .none, .offline .a, .online .a .none]).F.app = 0 := by
+  cases fixed <;> cases mfail <;> cases wake <;> decide
+
+/-- (not in the tree, seeded c08-7) a non-blocking send loses the wake-up in the window AFTER the mark — under
+the very hypothesis (`hit = false`) that makes the blocking shape safe -/
+theorem wake_lost_if_nonblocking_sched :
+    Wake.Stuck (Wake.run .nonblocking [.off, .test, .mark, .on, .cas, .send, .block]) ∧
+    (Wake.run .nonblocking [.off, .test, .mark, .on, .cas, .send, .block]).hit = false ∧
+    (Wake.run .nonblocking [.off, .test, .mark, .on, .cas, .send, .block]).susp = false := by decide
+
+/-- (not in the tree, seeded c08-17) an emptiness test on `Pending()` (appended − CONSUMED) lets the expiry
+tick stop a replicator whose last message was consumed but never acknowledged -/
+theorem tick_pending_test_removes_unacked :
+    (Tick.run false [.append, .consume, .lose, .test]).verdict = true ∧
+    (Tick.run false [.append, .consume, .lose, .test]).late = false ∧
+    (Tick.run false [.append, .consume, .lose, .test]).gack < (Tick.run false [.append, .consume, .lose, .test]).app ∧
+    (Tick.run false [.append, .consume, .lose, .test, .stop]).stopped = true := by decide
+
+/-- (observation, the tree as it is; not replayed on the real code — there is no yield point inside IsExpire)
+what the hypothesis `late = false` of `tick_never_removes_unacked` excludes: a WriteLog that lands between
+IsExpire's emptiness test and its stopReplicator is consumed by the loop and the replicator is removed with
+that message in flight -/
+theorem tick_append_between_test_and_stop :
+    (Tick.run true [.test, .append, .consume, .stop]).stopped = true ∧
+    (Tick.run true [.test, .append, .consume, .stop]).infl = some 0 ∧
+    (Tick.run true [.test, .append, .consume, .stop]).gack = -1 := by decide
 
 /-- Why `partition.recovery` must rebuild the channel of an OFFLINE follower too: a registered group
 without a replicator (`stopped`) is deaf — neither the online notification nor a loop iteration sends
